@@ -335,7 +335,7 @@ func genC14() *rapid.Generator[c14Case] {
 			n = rapid.SampledFrom([]int{130, 160, 200}).Draw(t, "nlong")
 		}
 		for i := 0; i < n; i++ {
-			r := c14Read{Kind: rapid.SampledFrom([]int{0, 0, 0, 0, 1, 2}).Draw(t, "kind"), Sender: rapid.IntRange(0, 4).Draw(t, "sender"),
+			r := c14Read{Kind: rapid.SampledFrom([]int{0, 0, 0, 0, 1, 2, 3, 3}).Draw(t, "kind"), Sender: rapid.IntRange(0, 4).Draw(t, "sender"),
 				Port: rapid.SampledFrom([]int{68, 68, 67, 1068, 546, 0, 65535}).Draw(t, "port"), Release: -1}
 			switch shape {
 			case 1:
@@ -389,6 +389,29 @@ func genC14() *rapid.Generator[c14Case] {
 				}
 			case 2:
 				r.B = []byte{}
+			case 3:
+				// well-framed but unusual datagrams, and arbitrary generated ones: whether they are dispatched is
+				// decided by whether they decode, nothing else (no tag: matched by content)
+				if c.V6 {
+					hdr := func(typ byte) []byte { h := make([]byte, 34); h[0] = typ; h[33] = byte(i); return h }
+					switch rapid.IntRange(0, 6).Draw(t, "odd6") {
+					case 0: // a relay message without a relay-message option
+						r.B = hdr(byte(rapid.SampledFrom([]int{12, 13}).Draw(t, "rtype")))
+					case 1: // … with an interface-id only
+						r.B = append(hdr(12), 0, 18, 0, 3, 'e', 't', byte('0'+i%10))
+					case 2: // … nested in another relay message
+						in := append(hdr(13), 0, 37, 0, 5, 0, 0, 0, 9, byte(i))
+						r.B = append(append(hdr(12), 0, 9, 0, byte(len(in))), in...)
+					case 3: // message types the library has no name for
+						r.B = []byte{byte(rapid.SampledFrom([]int{0, 14, 36, 100, 255}).Draw(t, "mtype")), 1, 2, byte(i), 0, 14, 0, 0}
+					case 4: // a header alone
+						r.B = []byte{byte(rapid.IntRange(1, 11).Draw(t, "mtype2")), 9, 9, byte(i)}
+					default:
+						r.B = []byte(genV6Wire(v6Cfg(3, 5, false)).Draw(t, "anyv6"))
+					}
+				} else {
+					r.B = gen.V4Wire(6, 300, rapid.IntRange(0, 1).Draw(t, "mut4")).Draw(t, "anyv4")
+				}
 			}
 			c.Reads = append(c.Reads, r)
 		}
